@@ -210,7 +210,69 @@ def handler(case):
     # ---- the two drivers that discover the files themselves ----
     if case.get("walk"):
         out["walk"] = walk_drivers(case, models)
+    # ---- tools/compiler.parse_all used incrementally: several calls on ONE tree ----
+    if case.get("inc"):
+        out["inc"] = incremental_parse_all(case, models, blobs)
     return out
+
+
+def incremental_parse_all(case, models, blobs):
+    """For each (file order, partition of it into consecutive groups): one parse_all call per group on the same
+    tree, against ONE parse_all call with the same file order on a fresh tree.  The parser is memoised (fresh
+    copies of the trees parsed above); everything else is the real compiler.parse_all."""
+    import pathlib
+    import pymoca.ast as ast
+    import pymoca.parser as parser
+    import compiler as cli
+
+    d = tempfile.mkdtemp(prefix="c27inc_")
+    res = []
+    by_text = {txt: i for i, txt in enumerate(case["files"])}
+    orig_parse = parser.parse
+
+    def memo_parse(txt, *a, **k):
+        i = by_text.get(txt)
+        return pickle.loads(blobs[i]) if i is not None else orig_parse(txt, *a, **k)
+
+    parser.parse = memo_parse
+    try:
+        paths = []
+        for i, txt in enumerate(case["files"]):
+            p = pathlib.Path(d) / ("f%d.mo" % i)
+            p.write_text(txt, encoding="utf-8")
+            paths.append(p)
+        one_cache = {}
+        first = True
+        for order, sizes in case["inc"]:
+            rec = {"order": order, "groups": sizes}
+            try:
+                key = tuple(order)
+                if key not in one_cache:
+                    one = ast.Tree(name="ModelicaTree")
+                    found, errs = cli.parse_all([paths[i] for i in order], one)
+                    one_cache[key] = (one, dump(one), len(found), len(errs))
+                one, done, nf, ne = one_cache[key]
+                rec["one_nfiles"], rec["one_nerr"] = nf, ne
+                if first:
+                    rec["one_flat"] = flat_all(one, models)     # ties the one-call driver to the other orders
+                    first = False
+                inc = ast.Tree(name="ModelicaTree")
+                k = 0
+                for sz in sizes:
+                    cli.parse_all([paths[i] for i in order[k:k + sz]], inc)
+                    k += sz
+                same = dump(inc) == done and parents_ok(inc)
+                rec["same"] = same
+                if not same:
+                    rec["inc_flat"] = flat_all(inc, models)
+                    rec["ref_flat"] = flat_all(one, models)
+            except Exception as e:  # noqa
+                rec["exc"] = "%s: %s" % (type(e).__name__, str(e)[:200])
+            res.append(rec)
+    finally:
+        parser.parse = orig_parse
+        shutil.rmtree(d, ignore_errors=True)
+    return res
 
 
 class _Captured(Exception):
